@@ -109,7 +109,49 @@ def run(ctx, rep):
             if o != want:
                 rep.disagree(f"{kind} best: model '{o}' vs code '{want}'", {"line": line, **case})
     query_correspondence(ctx, rep)
+    convergence_report(ctx, rep)
     predictor_oracle(ctx, rep)
+
+
+def convergence_report(ctx, rep):
+    """the best fitness REPORTED by evolve_until_convergence (OptimizeResult.fitness) is the fitness of a current member that is
+    minimal among the non-NaN ones - also when the best got worse since the last check (a non-elitist algorithm) or was NaN at first"""
+    from bingo.chromosomes.multiple_values import MultipleValueChromosomeGenerator, SinglePointCrossover, SinglePointMutation
+    from bingo.evaluation.evaluation import Evaluation
+    from bingo.evolutionary_algorithms.mu_comma_lambda import MuCommaLambda
+    from bingo.evolutionary_optimizers.island import Island
+    from bingo.selection.tournament import Tournament
+    from harness.bingo_util import GenomeFitness
+    rng = ctx.rng
+    for t in range(ctx.n(40, 400)):
+        np.random.seed(rng.randrange(2 ** 31))
+        fit = GenomeFitness(nan_mod=rng.choice([0, 5, 2]), inf_mod=0)
+        value_fn = lambda: int(np.random.randint(0, 10))
+        gen = MultipleValueChromosomeGenerator(value_fn, 3)
+        n = rng.choice([3, 4, 6])
+        ea = MuCommaLambda(Evaluation(fit), Tournament(2), SinglePointCrossover(), SinglePointMutation(value_fn), 0.4, 0.5, n)
+        isl = Island(ea, gen, n)
+        case = {"population_size": n, "nan_mod": fit.nan_mod, "trial": t}
+        rep.case(("convergence-report", t, n, fit.nan_mod), True)
+        rep.count("convergence_report_runs")
+        with warnings.catch_warnings():
+            warnings.simplefilter("ignore")
+            try:
+                isl.evaluate_population()
+                for call in range(2):
+                    res = isl.evolve_until_convergence(max_generations=rng.randrange(2, 7), fitness_threshold=-1.0, convergence_check_frequency=1)
+                    vals = [fit.value(c.values) for c in isl.population]
+                    finite = [v for v in vals if not math.isnan(v)]
+                    want = min(finite) if finite else float("nan")
+                    got = float(res.fitness)
+                    if not (got == want or (math.isnan(got) and math.isnan(want))):
+                        rep.violate(f"evolve_until_convergence (call {call + 1}) reports best fitness {got}; the population it returns with has "
+                                    f"fitness values {vals} (minimum over non-NaN: {want})", "C15:reported-result", {**case, "call": call + 1})
+                        break
+            except Exception as exc:
+                if "NoneType" in str(exc):
+                    continue          # MuCommaLambda diagnostics on unevaluated parents: known finding F5 (C05)
+                rep.violate(f"run raised {type(exc).__name__}: {exc}", "C15:query-raised", case)
 
 
 def query_correspondence(ctx, rep):
